@@ -115,16 +115,20 @@ CkInitJ(type, junk) ==
       [] type = "sha256" -> [h |-> H0, size |-> 0, buf |-> [i \in 1..64 |-> junk]]
 CkInit(type) == CkInitJ(type, 0)
 
-\* lzma_sha256_update(): fill buffer[size & 63 ..], process() whenever size becomes a multiple of 64
-RECURSIVE ShaUpdate(_, _)
+\* lzma_sha256_update(): the code copies into buffer[size & 63 ..] and calls process() whenever size becomes a
+\* multiple of 64.  Stated without the loop: V = the `start` buffered bytes followed by the new data; every
+\* complete 64-byte block of V is compressed in order; the rest of V stays at the front of the buffer and the
+\* positions behind it keep what the last copy left there (bytes of the previous block, or older content).
 ShaUpdate(s, data) ==
-    IF Len(data) = 0 THEN s
-    ELSE LET start == s.size % 64
-             n     == Min2(64 - start, Len(data))
-             buf2  == [j \in 1..64 |-> IF j > start /\ j <= start + n THEN data[j - start] ELSE s.buf[j]]
-             size2 == s.size + n
-             s2    == [h |-> IF size2 % 64 = 0 THEN Compress(s.h, buf2) ELSE s.h, size |-> size2, buf |-> buf2]
-         IN ShaUpdate(s2, SubSeq(data, n + 1, Len(data)))
+    LET start == s.size % 64
+        V     == SubSeq(s.buf, 1, start) \o data
+        total == start + Len(data)
+        nb    == total \div 64
+        rem   == total % 64
+        h2    == FoldLeft(LAMBDA h, i : Compress(h, SubSeq(V, 64 * i - 63, 64 * i)), s.h, Iota(nb))
+        buf2  == IF nb = 0 THEN V \o SubSeq(s.buf, total + 1, 64)
+                 ELSE SubSeq(V, 64 * nb + 1, total) \o SubSeq(V, 64 * (nb - 1) + rem + 1, 64 * nb)
+    IN [h |-> h2, size |-> s.size + Len(data), buf |-> buf2]
 
 \* lzma_sha256_finish(): 0x80, zeros up to byte 56 (through an extra block if needed), bit count, process
 ShaFinish(s) ==
